@@ -11,6 +11,22 @@ from ..framework import Prop, generic_shrink_list
 TICK_NS = 10 ** 9      # one model tick = one virtual second
 
 
+def pyval(v):
+    """the object a load returns for the case's value spec: an int, None, 'S' = '' and 'L' = [] (legitimate falsy results)"""
+    return {'S': '', 'L': []}.get(v, v) if isinstance(v, str) else v
+
+
+def tok(x):
+    """canonical token of a value as the model prints it: N = None, '' = 900001, [] = 900002, ints as they are"""
+    if x is None:
+        return 'N'
+    if x == '' and isinstance(x, str):
+        return '900001'
+    if isinstance(x, list) and x == []:
+        return '900002'
+    return str(x)
+
+
 class LoadError(Exception):
     """what a failing load raises"""
 
@@ -90,7 +106,8 @@ class C26(Prop):
     budget = {'quick': 2500, 'thorough': 30000}
     search_budget = {'quick': 3000, 'thorough': 30000}
     rule = ('case = (lifetime in ticks, num_slots, op sequence); lookups are tasks running the real lookup(k); the load function blocks on a '
-            'harness gate; op ok/fail opens the gate of the load in flight for that key with a value / LoadError; op x cancels a caller '
+            'harness gate; op ok/fail opens the gate of the load in flight for that key with a value (an int, None, 0, \'\' or []) / '
+            'LoadError; op x cancels a caller '
             'task; op adv moves the virtual clock that time.monotonic_ns reads. After every op the loop runs to quiescence and (clock, '
             '_cache/_expiry_time contents, keys whose load function is running, pending callers with their key, loads entered and '
             'caller outcomes during this op) is compared with the model. non-trivial = some lookup joined a load in flight, hit the cache, '
@@ -98,7 +115,8 @@ class C26(Prop):
     trusted = ['harness/aloop.py deterministic event loop (real asyncio.SelectorEventLoop with a virtual clock; ready queue never permuted); '
                'time.monotonic_ns patched to that clock',
                'harness/shims/prometheus_async (aio.time just awaits); prometheus_client is an inert stub',
-               'cache contents are read from the private dicts _cache and _expiry_time of the real object']
+               'cache contents and the internal-consistency invariant are read from the private _cache, _expiry_time and '
+               '_keys_by_expiry of the real object']
     assumptions = ['one event loop thread; code is atomic between awaits', 'shutdown() is not called',
                    'the load function itself is not cancelled from outside the cache']
 
@@ -111,7 +129,7 @@ class C26(Prop):
         self.Cache = mod.TimeLimitedMaxSizeCache
 
     # ---- generation ----------------------------------------------------------------------------
-    def _random_case(self, rng):
+    def _random_case(self, rng, p_plain=0.7):
         L = rng.choice([1, 2, 2, 3])
         slots = rng.choice([1, 2])
         nkeys = rng.choice([1, 2, 3, 3])
@@ -139,7 +157,7 @@ class C26(Prop):
                 op = ['l', c, rng.randrange(nkeys)]
             elif kind == 'ok':
                 v += 1
-                op = ['ok', rng.choice(sorted(sim.inflight)), v]
+                op = ['ok', rng.choice(sorted(sim.inflight)), v if rng.random() < p_plain else rng.choice([None, None, 0, 'S', 'L'])]
             elif kind == 'fail':
                 op = ['fail', rng.choice(sorted(sim.inflight))]
             elif kind == 'x':
@@ -158,7 +176,7 @@ class C26(Prop):
             ops.append(op)
         return {'L': L, 'slots': slots, 'ops': ops}
 
-    def _exhaustive(self, L, slots, length, nkeys, ncallers, dts):
+    def _exhaustive(self, L, slots, length, nkeys, ncallers, dts, with_none=False):
         """every well-formed op sequence of exactly `length` ops (callers and keys are interchangeable: a lookup uses the smallest free
         caller id and a key already used or the next fresh one; no two clock advances in a row)"""
         out = []
@@ -177,6 +195,8 @@ class C26(Prop):
                     rec(ops + [['l', c, k]])
             for k in sorted(sim.inflight):
                 rec(ops + [['ok', k, len(ops) + 1]])
+                if with_none:
+                    rec(ops + [['ok', k, None]])
                 rec(ops + [['fail', k]])
             for c in waiting:
                 rec(ops + [['x', c]])
@@ -190,11 +210,14 @@ class C26(Prop):
         if tier == 'thorough':
             for slots in (1, 2):
                 yield from self._exhaustive(2, slots, 6, 3, 4, (1, 2))
+                yield from self._exhaustive(2, slots, 5, 3, 4, (1, 2), with_none=True)
         else:
             for slots in (1, 2):
-                yield from self._exhaustive(2, slots, 4, 3, 4, (1, 2))
-        for _ in range(n):
-            yield self._random_case(rng)
+                yield from self._exhaustive(2, slots, 4, 3, 4, (1, 2), with_none=True)
+        for i in range(n):
+            # a quarter of the cases: almost every load returns None / a falsy value (repeat lookups, evictions and expiries of
+            # such entries)
+            yield self._random_case(rng, 0.15 if i % 4 == 0 else 0.7)
 
     def search_cases(self, rng, n, hint):
         for slots in (1, 2):
@@ -206,7 +229,8 @@ class C26(Prop):
     def model_lines(self, c):
         out = ['reset', f"cfg {c['L']} {c['slots']}"]
         for o in c['ops']:
-            out.append({'l': 'lookup {} {}', 'ok': 'ok {} {}', 'fail': 'fail {}', 'x': 'cancel {}', 'adv': 'adv {}'}[o[0]].format(*o[1:]))
+            out.append(('ok {} {}'.format(o[1], tok(pyval(o[2]))) if o[0] == 'ok' else
+                       {'l': 'lookup {} {}', 'fail': 'fail {}', 'x': 'cancel {}', 'adv': 'adv {}'}[o[0]].format(*o[1:])))
         return out
 
     # ---- real code -----------------------------------------------------------------------------
@@ -236,8 +260,22 @@ class C26(Prop):
                 cache = self.Cache(load, c['L'] * TICK_NS, c['slots'], 'verif')
                 callers = {}     # c -> [task, key, state] of the latest lookup of caller id c; state: new | waiting | done
 
+                def consistency():
+                    """the internal-consistency invariant of the real object: the value dict, the expiry dict and the expiry index
+                    hold the same keys, and the index is sorted by expiry"""
+                    try:
+                        kc, ke, ki = set(cache._cache), set(cache._expiry_time), list(cache._keys_by_expiry)
+                        if not (kc == ke == set(ki)) or len(ki) != len(kc):
+                            return f'BAD-keys:{sorted(kc)}/{sorted(ke)}/{ki}'.replace(' ', '').replace(',', '|')
+                        exps = [cache._expiry_time[k] for k in ki]
+                        if exps != sorted(exps):
+                            return f'BAD-order:{ki}'.replace(' ', '').replace(',', '|')
+                        return 'ok'
+                    except Exception as e:     # noqa: the index itself is broken
+                        return f'BAD-{type(e).__name__}'
+
                 def line():
-                    ents = ','.join(f'{k}:{cache._cache[k]}:{(cache._expiry_time[k] - t0ns) // TICK_NS}' for k in sorted(cache._cache))
+                    ents = ','.join(f'{k}:{tok(cache._cache[k])}:{(cache._expiry_time[k] - t0ns) // TICK_NS}' for k in sorted(cache._cache))
                     f = ','.join(str(k) for k in sorted(k for k, ns in running.items() for _ in ns))
                     w = ','.join(f'{i}:{r[1]}' for i, r in sorted(callers.items()) if not r[0].done())
                     ev = [f'start:{k}' for k in sorted(started)]
@@ -258,8 +296,8 @@ class C26(Prop):
                             e = t.exception()
                             ev.append(f'fail:{i}' if isinstance(e, LoadError) else f'exc:{i}:{type(e).__name__}')
                         else:
-                            ev.append(f"{'got' if state == 'waiting' else 'hit'}:{i}:{t.result()}")
-                    return f"t={int(s.loop._vtime - t0)} c={ents} f={f} w={w} e={','.join(ev)}"
+                            ev.append(f"{'got' if state == 'waiting' else 'hit'}:{i}:{tok(t.result())}")
+                    return f"t={int(s.loop._vtime - t0)} c={ents} f={f} w={w} i={consistency()} e={','.join(ev)}"
 
                 out = ['ok', line()]
                 for op in c['ops']:
@@ -277,7 +315,7 @@ class C26(Prop):
                             continue
                         n = running[k][0]
                         if kind == 'ok':
-                            s.open(('load', k, n), value=op[2])
+                            s.open(('load', k, n), value=pyval(op[2]))
                         else:
                             s.open(('load', k, n), exc=LoadError(f'load of {k} failed'))
                     elif kind == 'x':
@@ -321,7 +359,10 @@ class C26(Prop):
             if kind == 'adv':
                 t += op[1]
             if kind == 'ok':
-                puts.setdefault(op[1], []).append((op[2], t))
+                puts.setdefault(op[1], []).append((tok(pyval(op[2])), t))
+            # internally consistent
+            if d['i'] != ['ok']:
+                return f"{at}: the cache's internal structures disagree: {d['i']} (keys of _cache / _expiry_time / _keys_by_expiry, order by expiry)"
             # bounded
             if len(d['c']) > slots:
                 return f"{at}: cache holds {len(d['c'])} entries {d['c']} > num_slots {slots}"
@@ -333,15 +374,15 @@ class C26(Prop):
                 if p[0] == 'wait':
                     awaiting[int(p[1])] = op[2]
                 elif p[0] == 'hit':
-                    i, v = int(p[1]), int(p[2])
+                    i, v = int(p[1]), p[2]
                     k = op[2]
                     if not any(v0 == v and 0 <= t - t0 < L for v0, t0 in puts.get(k, [])):
                         return (f'{at}: lookup of key {k} returned cached value {v} at time {t}; loads of that key returned '
                                 f'(value, time) {puts.get(k, [])}, lifetime {L} (stale or never loaded)')
                 elif p[0] == 'got':
-                    i, v = int(p[1]), int(p[2])
+                    i, v = int(p[1]), p[2]
                     k = awaiting.pop(i, None)
-                    if kind != 'ok' or op[1] != k or op[2] != v:
+                    if kind != 'ok' or op[1] != k or tok(pyval(op[2])) != v:
                         return f'{at}: caller {i} waiting for key {k} received {v}, which is not the value this op loaded for that key'
                 elif p[0] == 'fail':
                     i = int(p[1])
